@@ -38,6 +38,10 @@ def lookup(callee):
             if name.startswith(p): return f
         for r, f in _REGEX:
             if r.match(name): return f
+    k = callee.get('key')
+    if k:
+        for r, f in _REGEX:
+            if r.match(k): return f
     if callee.get('kind') == 'intrinsic':
         f = _EXACT.get('intrinsic:' + callee.get('intrinsic', ''))
         if f: return f
